@@ -1,5 +1,6 @@
 """C02 — drawing never changes pixels outside shape, clip and surface."""
 import dt
+import ras
 import shared
 
 META = {
@@ -21,4 +22,4 @@ META = {
 
 def run(ctx):
     import engine
-    engine.run_rules(ctx, [dt.r02_1, dt.r02_2, dt.r02_3, dt.r02_4, dt.r02_5, dt.r02_6, dt.r02_7, dt.r02_8])
+    engine.run_rules(ctx, [dt.r02_1, dt.r02_2, dt.r02_3, dt.r02_4, dt.r02_5, dt.r02_6, dt.r02_7, dt.r02_8, ras.r10_4, ras.r10_1])
